@@ -37,33 +37,44 @@ static std::string op_evalseq(std::istringstream& is)
 }
 
 // hm <tok> ... : the pawn-table type itself; tok = i:<hexkey>:<mg>:<eg> | p:<hexkey> | c ; output for each p: found:mg:eg
-static std::string op_hm(std::istringstream& is)
+// (only when the table still maps a key to a plain Score; a tree that caches something else answers UNAVAILABLE and the check falls
+//  back to judging the evaluator's observable behaviour)
+template <class HM> static std::string hm_ops(std::istringstream& is)
 {
-    static std::unique_ptr<PawnHashMap> hm;
-    hm.reset(new PawnHashMap());
-    std::string tok, out;
-    while (is >> tok)
+    using V = std::decay_t<decltype(std::declval<HM&>().probe(uint64_t(0), std::declval<bool&>())->value)>;
+    if constexpr (std::is_same_v<V, Score>)
     {
-        if (tok == "c") { hm->clear(); continue; }
-        char kind = tok[0];
-        std::vector<std::string> f;
-        std::string cur;
-        for (size_t i = 2; i <= tok.size(); ++i)
+        static std::unique_ptr<HM> hm;
+        hm.reset(new HM());
+        std::string tok, out;
+        while (is >> tok)
         {
-            if (i == tok.size() || tok[i] == ':') { f.push_back(cur); cur.clear(); }
-            else cur += tok[i];
+            if (tok == "c") { hm->clear(); continue; }
+            char kind = tok[0];
+            std::vector<std::string> f;
+            std::string cur;
+            for (size_t i = 2; i <= tok.size(); ++i)
+            {
+                if (i == tok.size() || tok[i] == ':') { f.push_back(cur); cur.clear(); }
+                else cur += tok[i];
+            }
+            uint64_t key = parse_hex(f[0]);
+            if (kind == 'i') hm->insert(key, V(atoll(f[1].c_str()), atoll(f[2].c_str())));
+            else
+            {
+                bool found = false;
+                auto e = hm->probe(key, found);
+                out += (out.empty() ? "" : " ") + std::string(found ? "1" : "0") + ":" + std::to_string((long long)e->value.mg) + ":" + std::to_string((long long)e->value.eg);
+            }
         }
-        uint64_t key = parse_hex(f[0]);
-        if (kind == 'i') hm->insert(key, Score(atoll(f[1].c_str()), atoll(f[2].c_str())));
-        else
-        {
-            bool found = false;
-            auto e = hm->probe(key, found);
-            out += (out.empty() ? "" : " ") + std::string(found ? "1" : "0") + ":" + std::to_string((long long)e->value.mg) + ":" + std::to_string((long long)e->value.eg);
-        }
+        return out;
     }
-    return out;
+    else
+    {
+        return "UNAVAILABLE";
+    }
 }
+static std::string op_hm(std::istringstream& is) { return hm_ops<PawnHashMap>(is); }
 
 // pawnkey <fen> : Position::pawn_hash() (hex)
 static std::string op_pawnkey(std::istringstream& is)
